@@ -137,7 +137,7 @@ NULLARY = {"self": (".", "ESelf"), "recurse": ("..", "ERecurse"), "not": ("not",
            "keys": ("keys", "EKeys"), "to_entries": ("to_entries", "EToEntries"), "from_entries": ("from_entries", "EFromEntries"),
            "reverse": ("reverse", "EReverse"), "any": ("any", "EAny"), "all": ("all", "EAll"), "path": ("path", "EPath"),
            "key": ("key", "EGetKey"), "parent": ("parent", "EParent")}
-UNARY = {"select": ("select", "ESelect"), "map": ("map", "EMap"), "filter": ("filter", "EFilter"), "has": ("has", "EHas"),
+UNARY = {"with_entries": ("with_entries", "EWithEntries"), "select": ("select", "ESelect"), "map": ("map", "EMap"), "filter": ("filter", "EFilter"), "has": ("has", "EHas"),
          "unique_by": ("unique_by", "EUniqueBy"), "group_by": ("group_by", "EGroupBy"), "any_c": ("any_c", "EAnyC"),
          "all_c": ("all_c", "EAllC"), "sort_by": ("sort_by", "ESortBy"), "del": ("del", "EDel")}
 
@@ -320,6 +320,7 @@ class Gen:
         self.ro_only = ro_only
         self.doc = None
         self.wild = 0.0      # probability of glob patterns (* ?) in key steps and string literals
+        self.entry_updates = False   # with_entries bodies that update the entry (they work on copies of the entries)
 
     def set_doc(self, doc):
         self.doc = doc
@@ -406,6 +407,15 @@ class Gen:
                 # the context is the document root followed by inner nodes: the operator still works per input node
                 return ("pipe", ("union", ("self",), self.path(1)), (op, self.scalar(0, vs), self.scalar(0, vs)))
             return (op, self.scalar(d - 1, vs), self.scalar(d - 1, vs))
+        if r < 0.535:
+            bodies = [("self",), ("select", (rng.choice(["gt", "lt", "ne"]), ("getkey", "value"), lit(rng.choice(INTS[:4])))),
+                      ("select", ("ne", ("getkey", "key"), lit(rng.choice(KEYS)))), ("union", ("self",), ("self",)),
+                      ("object", [("key", ("getkey", "key")), ("value", lit(rng.choice(INTS[:4])))]), sub()]
+            if self.entry_updates:
+                bodies += [("compound", "add", ("getkey", "value"), lit(1)), ("assign", ("getkey", "key"), lit(rng.choice(KEYS))),
+                           ("update", ("getkey", "key"), ("add", ("self",), lit("x"))), ("assign", ("getkey", "value"), ("getkey", "key")),
+                           ("pipe", ("select", ("lt", ("getkey", "value"), lit(3))), ("assign", ("getkey", "value"), lit(None)))]
+            return ("pipe", self.path(d) if rng.random() < 0.7 else sub(), ("with_entries", rng.choice(bodies)))
         if r < 0.58:
             return (rng.choice(["select", "select", "map", "filter", "any_c", "all_c"]), sub())
         if r < 0.70:
